@@ -470,7 +470,7 @@ func propC18(r *Run) {
 		if cur.BaseDir != "" {
 			upd := &Call{Agent: a.idx, Via: "agent", Kind: "update", User: "dana", PW: "after-reload"}
 			w.addClient([]*Call{upd})
-			if wedge := w.drain(nil); wedge != "" {
+			if wedge := w.settle(nil); wedge != "" {
 				r.Fail("reload/requests-unanswered", "%s", wedge)
 			}
 			if !upd.OK {
